@@ -18,6 +18,11 @@ form), JSON texts it READS travel as the hex of their UTF-8 bytes.
 * `c19_amount_rd …` the same through a non-borrowing deserialiser (`from_reader`); spec side = what reading the same
   document as plain owned strings gives (the property asks sequences to read back like single amounts)
 * `c19_addr <address text hex>` → `<text> rt=<eq|ne|err>` | `err`;  `c19_addr_de <json hex>` → `ok <address text hex>` | `err`
+* `c19_addr_parts <net> <Standard|SubAddress|Integrated> <spend> <view> <payment id|->` → as `c19_addr`, for the address BUILT from its
+  parts (spec side: the text of `Spec.Address.text`, quoted, `rt=eq`)
+* `c19_amount_forms …` = `c19_amount …` with `rd= val= slice=` (the other entry points) instead of `rt=`
+* `c19_seq <op…> ; <op…> ; …` → the results of the operations, executed one after the other in ONE call of the library's thread,
+  joined by ` ; ` (model side: each operation on its own — the model has no state; spec side: joined if every part has one)
 Model side = `Model/Json.lean`. Spec side: `c19_amount` (`specAmount`, the by-convention text with `Spec.Decimal.specFormat`) and
 `c19_amount_de` / `c19_amount_rd` (`specAmtDoc`: `Spec.Decimal.specParse 12` / integer ranges, no reader of `Model/Json`); `-` elsewhere. -/
 
@@ -54,7 +59,11 @@ def showDe {α} (toJ : α → Json) (fromJ : Json → Option α) (b : Bytes) : S
   | some j => match fromJ j with | none => "err" | some y => "ok " ++ text (render (toJ y))
 
 /-- `… rd=<from_reader> val=<to_value → from_value> slice=<from_slice>`: the non-borrowing entry points see every string
-as owned (`Json.owned`); `from_value` works on the tree, without the printer / parser -/
+as owned (`Json.owned`); `from_value` works on the tree, without the printer / parser. NOTE: since the fix of `as_xmr::vec` no
+reader of `Model/Json.lean` distinguishes `.str` from `.strEsc` (`readBorrowedStr` is unused), so the three columns are the SAME
+computation as `rt` of `withRt` — the model side is the constant prediction "these entry points behave like `from_str`";
+`to_value` / `from_value` are not modelled separately. What varies is the Rust side, which really calls the three entry points
+(`Json.owned` would bite on a borrowing reader: see the `readBorrowedStr` example in Props/C19.lean). -/
 def withRd {α} [DecidableEq α] (x : α) (toJ : α → Json) (fromJ : Json → Option α) : String :=
   let t := render (toJ x)
   let cmp (o : Option α) : String := match o with | none => "err" | some y => if y = x then "eq" else "ne"
@@ -82,13 +91,15 @@ integer, monero as the exact 12-decimal string of Spec.Decimal; `null` for an ab
 every monero string is within the parsing limit |a| <= 2^63 - 1 -/
 def specAmtText (xmr : Bool) (a : Int) : String :=
   if xmr then "\"" ++ String.ofList ((Spec.Decimal.specFormat 12 a).map fun b => Char.ofNat b.toNat) ++ "\"" else toString a
-def specAmount (xmr : Bool) (shape : String) (vals : List (Option Int)) : String :=
+def specAmountG (forms : Bool) (xmr : Bool) (shape : String) (vals : List (Option Int)) : String :=
   let body := match shape, vals with
     | "vec", vs => "{\"amounts\":[" ++ ",".intercalate (vs.map fun v => match v with | some a => specAmtText xmr a | none => "null") ++ "]}"
     | _, [some a] => "{\"amount\":" ++ specAmtText xmr a ++ "}"
     | _, _ => "{\"amount\":null}"
   let ok := vals.all fun v => match v with | some a => !xmr || decide (-(2^63 - 1 : Int) ≤ a ∧ a ≤ 2^63 - 1) | none => true
-  s!"{body} rt={if ok then "eq" else "err"}"
+  let r := if ok then "eq" else "err"
+  if forms then s!"{body} rd={r} val={r} slice={r}" else s!"{body} rt={r}"
+def specAmount (xmr : Bool) (shape : String) (vals : List (Option Int)) : String := specAmountG false xmr shape vals
 def encOfStr : String → Option AmtEnc | "as_pico" => some .pico | "as_xmr" => some .xmr | _ => none
 def inRange (signed : Bool) (a : Int) : Bool :=
   if signed then decide (-(2^63 : Int) ≤ a ∧ a < 2^63) else decide (0 ≤ a ∧ a < 2^64)
@@ -144,7 +155,7 @@ def specAmtDoc (signed xmr : Bool) (shape : String) (j : Option Json) : Option S
 end C19
 
 open C19 in
-def stepC19 : Step := fun toks =>
+def stepC19One : Step := fun toks =>
   match toks with
   | ["c19_json", "tx", h] =>
     some ((match tx (Hex.decode h) with | some (t, []) => withRt t txJ txFromJson | _ => "err"), "-")
@@ -227,6 +238,23 @@ def stepC19 : Step := fun toks =>
       if !vs.all (inRange signed) then none else
       pure (withRt vs (hasAmountsJ signed e) (hasAmountsFromJson signed e), specAmount (enc == "as_xmr") "vec" (vs.map some))
     | _, _ => none
+  | "c19_amount_forms" :: enc :: shape :: ty :: vals => do
+    let e ← encOfStr enc; let signed ← signedOfStr ty
+    match shape, vals with
+    | "plain", [a] =>
+      let a ← a.toInt?
+      if !inRange signed a then none else
+      pure (withRd a (hasAmountJ signed e) (hasAmountFromJson signed e), specAmountG true (enc == "as_xmr") "plain" [some a])
+    | "opt", ["none"] => pure (withRd none (hasOptAmountJ signed e) (hasOptAmountFromJson signed e), specAmountG true (enc == "as_xmr") "opt" [none])
+    | "opt", [a] =>
+      let a ← a.toInt?
+      if !inRange signed a then none else
+      pure (withRd (some a) (hasOptAmountJ signed e) (hasOptAmountFromJson signed e), specAmountG true (enc == "as_xmr") "opt" [some a])
+    | "vec", vs =>
+      let vs ← vs.mapM fun (v : String) => v.toInt?
+      if !vs.all (inRange signed) then none else
+      pure (withRd vs (hasAmountsJ signed e) (hasAmountsFromJson signed e), specAmountG true (enc == "as_xmr") "vec" (vs.map some))
+    | _, _ => none
   | ["c19_amount_de", enc, shape, ty, h] => do
     let e ← encOfStr enc; let signed ← signedOfStr ty
     let j := parse (Hex.decode h)
@@ -250,9 +278,36 @@ def stepC19 : Step := fun toks =>
           let rt := match (parse t).bind (addrFromJson C12.H C12.validKey) with
             | none => "err" | some a' => if a' = a then "eq" else "ne"
           s!"{text t} rt={rt}"), "-")
+  | ["c19_addr_parts", n, k, sp, vw, p] => do
+    match ← C12.mkAddr n k sp vw p with
+    | none => pure ("err", "err")
+    | some a =>
+      let m := match addrJ C12.H a with
+        | none => "fmt-err"
+        | some j =>
+          let t := render j
+          let rt := match (parse t).bind (addrFromJson C12.H C12.validKey) with
+            | none => "err" | some a' => if a' = a then "eq" else "ne"
+          s!"{text t} rt={rt}"
+      pure (m, "\"" ++ text (Spec.Address.text C12.H a.net a.kind a.spend a.view a.pid) ++ "\" rt=eq")
   | ["c19_addr_de", h] =>
     some ((match (parse (Hex.decode h)).bind (addrFromJson C12.H C12.validKey) with
       | none => "err"
       | some a => match Address.toStr C12.H a with | none => "fmt-err" | some s => "ok " ++ Hex.encode s), "-")
   | _ => none
+
+/-- the parts of a `c19_seq` line (separated by the token `;`) -/
+def C19.splitSeq (toks : List String) : List (List String) :=
+  let (acc, cur) := toks.foldl (fun (st : List (List String) × List String) t => if t = ";" then (st.2.reverse :: st.1, []) else (st.1, t :: st.2)) ([], [])
+  (cur.reverse :: acc).reverse
+
+def stepC19 : Step := fun toks =>
+  match toks with
+  | "c19_seq" :: rest => do
+    let parts := C19.splitSeq rest
+    if parts.any (fun p => p.isEmpty || p.head? == some "c19_seq") then none else
+    let rs ← parts.mapM stepC19One
+    let spec := if rs.all (fun r => r.2 != "-") then " ; ".intercalate (rs.map (·.2)) else "-"
+    pure (" ; ".intercalate (rs.map (·.1)), spec)
+  | _ => stepC19One toks
 end Drv
